@@ -209,16 +209,45 @@ def run_pipeline(harness, cases, timeout=1800):
     inp = "".join("%s %s\n" % (i, c) for i, c in zip(ids, cases))
     env = goenv()
     env.setdefault("GOMEMLIMIT", "6GiB")
-    p = subprocess.run([harness], input=inp, stdout=subprocess.PIPE, stderr=subprocess.PIPE,
-                       text=True, timeout=timeout, env=env)
+    # whole-run cases take wall-clock time: spread them over parallel harness processes
+    slow = [i for i, c in zip(ids, cases) if c.startswith("run ")]
+    fast_inp = "".join("%s %s\n" % (i, c) for i, c in zip(ids, cases) if not c.startswith("run "))
     impl = {}
+    slow_results = {}
+    threads = []
+    if slow:
+        import threading
+        k = min(len(slow), int(os.environ.get("VERIF_PAR", "12")))
+        chunks = [slow[j::k] for j in range(k)]
+
+        def work(chunk):
+            sub = "".join("%s %s\n" % (i, cases[int(i)]) for i in chunk)
+            try:
+                q = subprocess.run([harness], input=sub, stdout=subprocess.PIPE, stderr=subprocess.PIPE,
+                                   text=True, timeout=timeout, env=env)
+                for line in q.stdout.splitlines():
+                    parts = line.split("\t")
+                    if len(parts) >= 2:
+                        slow_results[parts[0]] = parts[1]
+            except subprocess.TimeoutExpired:
+                pass
+        for ch in chunks:
+            t = threading.Thread(target=work, args=(ch,))
+            t.start()
+            threads.append(t)
+    p = subprocess.run([harness], input=fast_inp, stdout=subprocess.PIPE, stderr=subprocess.PIPE,
+                       text=True, timeout=timeout, env=env)
+    for t in threads:
+        t.join()
+    for i in slow:
+        impl[i] = slow_results.get(i, "crash:process")
     for line in p.stdout.splitlines():
         parts = line.split("\t")
         if len(parts) >= 2:
             impl[parts[0]] = parts[1]
     stderr_tail = p.stderr[-2000:]
     # a case that killed the harness process: re-run the remaining ones alone
-    missing = [i for i in ids if i not in impl]
+    missing = [i for i in ids if i not in impl and not cases[int(i)].startswith("run ")]
     if missing and p.returncode != 0:
         first = missing[0]
         impl[first] = "crash:process"
